@@ -12,7 +12,8 @@ Definition single_spec (e : ev) (t : Z) (ps : list ev) : Prop :=
   (forall x, at_opt (nth_error ps 1) x = if 0 <=? x then at_ e (t + x) else None) /\
   dur_opt (nth_error ps 0) = Z.min t (dur e) /\
   dur_opt (nth_error ps 1) = Z.max 0 (dur e - t) /\
-  (t < dur e -> length ps = 2%nat).
+  (t < dur e -> length ps = 2%nat) /\
+  (dur e < t -> (length ps <= 1)%nat).
 
 (* the recursive call behaves on every event of height <= n *)
 Definition rec_ok (n : nat) (rec : ev -> list Z -> bool -> res (list ev)) : Prop :=
@@ -23,7 +24,7 @@ Lemma single_spec_transfer e e' t ps : single_spec e' t ps ->
   (forall x, at_ e' x = at_ e x) -> dur e' = dur e -> (height e' <= height e)%nat ->
   (forall p, same_shape e' p -> same_shape e p) -> single_spec e t ps.
 Proof.
-  intros (H1 & H2 & H3 & H4 & H5 & H6 & H7 & H8 & H9) Ha Hd Hh Hs.
+  intros (H1 & H2 & H3 & H4 & H5 & H6 & H7 & H8 & H9 & H10) Ha Hd Hh Hs.
   repeat split; try assumption.
   - lia.
   - eapply Forall_impl; [|exact H4]. auto.
@@ -32,6 +33,7 @@ Proof.
   - lia.
   - lia.
   - intros. apply H9. lia.
+  - intros. apply H10. lia.
 Qed.
 
 (* ------------------------------------------------------------ Leaf *)
@@ -116,11 +118,101 @@ Definition inside_spec (e : ev) (t : Z) (p0 p1 : ev) : Prop :=
 Lemma single_spec_inside e t ps : single_spec e t ps -> 0 < t < dur e ->
   exists p0 p1, ps = [p0; p1] /\ inside_spec e t p0 p1.
 Proof.
-  intros (H1 & H2 & H3 & H4 & H5 & H6 & H7 & H8 & H9) Ht.
+  intros (H1 & H2 & H3 & H4 & H5 & H6 & H7 & H8 & H9 & H10) Ht.
   specialize (H9 ltac:(lia)). destruct ps as [|p0 [|p1 [|? ?]]]; simpl in H9; try lia.
   exists p0, p1. split; [reflexivity|]. simpl in *. destruct H2 as (W0 & W1 & _).
   inversion H4 as [|? ? S0 H4']; subst. inversion H4' as [|? ? S1 _]; subst.
   unfold inside_spec. repeat split; auto; lia.
+Qed.
+
+(* replacing a child by its two parts keeps the denotation of the child list *)
+Lemma replace_parts A ch B p0 p1 t' : wfs (A ++ ch :: B) -> inside_spec ch t' p0 p1 -> 0 < t' < dur ch ->
+  wfs (A ++ p0 :: p1 :: B) /\ dsum (A ++ p0 :: p1 :: B) = dsum (A ++ ch :: B) /\
+  (forall x, at_seq (A ++ p0 :: p1 :: B) x = at_seq (A ++ ch :: B) x) /\
+  (hmax (A ++ p0 :: p1 :: B) <= hmax (A ++ ch :: B))%nat /\
+  dsum (firstn (S (length A)) (A ++ p0 :: p1 :: B)) = dsum A + t' /\
+  (forall k, dsum (firstn k (A ++ ch :: B)) < dsum A + t' ->
+             firstn k (A ++ p0 :: p1 :: B) = firstn k (A ++ ch :: B)).
+Proof.
+  intros Hwf (D0 & D1 & W0 & W1 & A0 & A1 & S0 & S1 & H0 & H1) Ht.
+  apply wfs_app in Hwf. destruct Hwf as [WA [Wc WB]].
+  assert (W' : wfs (p0 :: p1 :: B)) by (simpl; auto).
+  split; [apply wfs_app; auto|].
+  split; [rewrite !dsum_app, !dsum_cons; lia|].
+  split.
+  { intros x. rewrite !at_seq_app by (simpl; auto). destruct (x <? dsum A); [reflexivity|].
+    set (y := x - dsum A). rewrite !at_seq_cons, A0, A1, D0, D1.
+    repeat match goal with |- context [if ?c then _ else _] => destruct c eqn:? end;
+      try reflexivity; try lia; f_equal; lia. }
+  split; [rewrite !hmax_app, !hmax_cons; lia|].
+  split; [rewrite firstn_S_length_app, dsum_app; simpl; lia|].
+  intros k Hk. rewrite !firstn_app.
+  destruct (Nat.le_gt_cases k (length A)) as [Hle|Hgt].
+  - replace (k - length A)%nat with 0%nat by lia. reflexivity.
+  - exfalso. rewrite firstn_app in Hk. rewrite (firstn_all2 A) in Hk by lia.
+    destruct (k - length A)%nat as [|j] eqn:Ej; [lia|]. rewrite firstn_cons, dsum_app, dsum_cons in Hk.
+    pose proof (dsum_nonneg _ (wfs_firstn j B WB)). lia.
+Qed.
+
+(* the last step of Consecution.split_at: slices between the recorded indices *)
+Definition seq_finish (m : meta) (c : list ev) (idx : list nat) : list ev :=
+  let idx1 := if memN 0%nat idx then idx else 0%nat :: idx in
+  let idx2 := if memN (length c) idx1 then idx1 else idx1 ++ [length c] in
+  map (fun '(i0, i1) => Seq m (lslice i0 i1 c)) (pairs idx2).
+Lemma seq_split_unfold rec m cs ts ign : ts <> [] -> seq_split rec m cs ts ign =
+  ('(c, idx) <- seq_split_loop rec ign true (dsum cs) (sortZ ts) cs (starts cs) [] ; Ok (seq_finish m c idx)).
+Proof. destruct ts; [congruence|reflexivity]. Qed.
+
+Lemma lslice_0 {A} i (c : list A) : lslice 0 i c = firstn i c.
+Proof. unfold lslice. rewrite Nat.sub_0_r. reflexivity. Qed.
+Lemma lslice_to_end {A} i (c : list A) : lslice i (length c) c = skipn i c.
+Proof. unfold lslice. apply firstn_all2. rewrite skipn_length. lia. Qed.
+
+Lemma seq_finish_one m c i : (0 < i < length c)%nat ->
+  seq_finish m c [i] = [Seq m (firstn i c); Seq m (skipn i c)].
+Proof.
+  intros Hi. unfold seq_finish. cbn [memN]. destruct (Nat.eqb 0 i) eqn:E0; [apply Nat.eqb_eq in E0; lia|].
+  cbn [orb]. cbn [memN]. destruct (Nat.eqb (length c) 0) eqn:E1; [apply Nat.eqb_eq in E1; lia|].
+  destruct (Nat.eqb (length c) i) eqn:E2; [apply Nat.eqb_eq in E2; lia|]. cbn [orb app pairs map].
+  rewrite lslice_0, lslice_to_end. reflexivity.
+Qed.
+Lemma seq_finish_none m c : seq_finish m c [] = match c with [] => [] | _ => [Seq m c] end.
+Proof.
+  unfold seq_finish. cbn [memN]. destruct c as [|x c]; [reflexivity|].
+  cbn [memN length Nat.eqb orb app pairs map]. rewrite lslice_0. change (S (length c)) with (length (x :: c)).
+  rewrite firstn_all. reflexivity.
+Qed.
+
+Lemma seq_two m c i t : wfs c -> 0 < t -> nth_error (starts c) i = Some t ->
+  single_spec (Seq m c) t (seq_finish m c [i]).
+Proof.
+  intros Hwf Ht Hn. apply starts_nth_inv in Hn. destruct Hn as [Hi Hti].
+  assert (i <> 0%nat) by (intros ->; simpl in Hti; lia).
+  rewrite seq_finish_one by lia.
+  pose proof (dsum_firstn_skipn i c) as Hsum. pose proof (dsum_nonneg _ (wfs_skipn i c Hwf)) as Hsk.
+  unfold single_spec. cbn [length nth_error at_opt dur_opt]. rewrite !dur_seq.
+  split; [lia|]. split; [exact (conj (wfs_firstn i c Hwf) (conj (wfs_skipn i c Hwf) I))|].
+  split; [rewrite !hmax_cons, !height_seq; cbn [hmax]; pose proof (hmax_firstn i c); pose proof (hmax_skipn i c); lia|].
+  split; [repeat constructor|].
+  split; [intros x; rewrite !at_seq_eq, at_seq_firstn, <- Hti by assumption; reflexivity|].
+  split; [intros x; rewrite !at_seq_eq, at_seq_skipn, <- Hti by assumption; reflexivity|].
+  repeat split; lia.
+Qed.
+
+Lemma seq_whole m c t : wfs c -> 0 < t -> dsum c <= t ->
+  single_spec (Seq m c) t (seq_finish m c []).
+Proof.
+  intros Hwf Ht Hd. rewrite seq_finish_none. pose proof (dsum_nonneg c Hwf) as Hnn.
+  unfold single_spec. destruct c as [|x c].
+  - cbn [length nth_error at_opt dur_opt]. rewrite !dur_seq. simpl.
+    repeat split; try lia; auto. intros y. destruct (y <? t); reflexivity. intros y. destruct (0 <=? y); reflexivity.
+  - cbn [length nth_error at_opt dur_opt]. rewrite !dur_seq.
+    split; [lia|]. split; [exact (conj Hwf I)|].
+    split; [simpl; lia|].
+    split; [repeat constructor|].
+    split; [intros y; destruct (y <? t) eqn:E; [reflexivity|]; rewrite at_seq_eq; apply at_seq_outside; [assumption|lia]|].
+    split; [intros y; destruct (0 <=? y) eqn:E; [|reflexivity]; rewrite at_seq_eq; symmetry; apply at_seq_outside; [assumption|lia]|].
+    repeat split; lia.
 Qed.
 
 (* ------------------------------------------------------------ Consecution *)
@@ -163,6 +255,418 @@ Section WithRec.
         destruct (rec_inside ch (t - dsum A) Hhc Hwc ltac:(lia)) as (p0 & p1 & Erec & Hins).
         rewrite Erec. cbn [bind]. rewrite skipn_S_length_app.
         eexists _, _. split; [reflexivity|]. right. exists A, ch, B, p0, p1.
-        repeat split; auto; lia.
+        split; [reflexivity|]. split; [reflexivity|]. split; [reflexivity|]. split; [lia|exact Hins].
+  Qed.
+
+  Definition core_ok (cs : list ev) (t : Z) (cs' : list ev) (i : nat) : Prop :=
+    wfs cs' /\ dsum cs' = dsum cs /\ (forall x, at_seq cs' x = at_seq cs x) /\ (hmax cs' <= hmax cs)%nat /\
+    nth_error (starts cs') i = Some t /\ dsum (firstn i cs') = t /\ (i < length cs')%nat /\
+    (forall k, dsum (firstn k cs) < t -> firstn k cs' = firstn k cs) /\
+    (forall x, at_seq (firstn i cs') x = if x <? t then at_seq cs x else None) /\
+    (forall x, at_seq (skipn i cs') x = if 0 <=? x then at_seq cs (t + x) else None).
+
+  (* A4 *)
+  Lemma split_child_core_spec cs t : (hmax cs <= n)%nat -> wfs cs -> 0 <= t ->
+    (dsum cs <= t -> split_child_core rec cs t (starts cs) (dsum cs) = Err ESplitUnavailableChild) /\
+    (t < dsum cs -> exists cs' i, split_child_core rec cs t (starts cs) (dsum cs) = Ok (cs', i) /\ core_ok cs t cs' i).
+  Proof.
+    intros Hh Hwf Ht. destruct (split_child_core_struct cs t Hh Hwf Ht) as [H1 H2]. split; [exact H1|].
+    intros Hd. destruct (H2 Hd) as (cs' & i & E & Hst). exists cs', i. split; [exact E|].
+    assert (G : wfs cs' /\ dsum cs' = dsum cs /\ (forall x, at_seq cs' x = at_seq cs x) /\ (hmax cs' <= hmax cs)%nat /\
+                nth_error (starts cs') i = Some t /\ (forall k, dsum (firstn k cs) < t -> firstn k cs' = firstn k cs)).
+    { destruct Hst as [[-> Hn]|(A & ch & B & p0 & p1 & -> & -> & -> & Hr & Hins)].
+      - repeat split; auto.
+      - destruct (replace_parts A ch B p0 p1 (t - dsum A) Hwf Hins ltac:(lia)) as (R1 & R2 & R3 & R4 & R5 & R6).
+        repeat split; auto.
+        + rewrite starts_nth by (rewrite app_length; simpl; lia). f_equal. lia.
+        + intros k Hk. apply R6. lia. }
+    destruct G as (G1 & G2 & G3 & G4 & G5 & G6).
+    pose proof (starts_nth_inv _ _ _ G5) as [Hi Hti].
+    unfold core_ok. repeat split; auto.
+    - intros x. rewrite at_seq_firstn, <- Hti, G3 by assumption. reflexivity.
+    - intros x. rewrite at_seq_skipn, <- Hti, G3 by assumption. reflexivity.
+  Qed.
+
+  Lemma seq_loop_nil ign first durf c abl idx : seq_split_loop rec ign first durf [] c abl idx = Ok (c, idx).
+  Proof. reflexivity. Qed.
+  Lemma seq_loop_cons ign first durf t r c abl idx : seq_split_loop rec ign first durf (t :: r) c abl idx =
+      (_ <- (if first then check_time t else Ok tt) ;
+      match index_of t abl with
+      | Some i => seq_split_loop rec ign false durf r c abl (idx ++ [i])
+      | None =>
+        if t =? durf then seq_split_loop rec ign false durf r c abl idx
+        else match split_child_core rec c t abl durf with
+             | Err ESplitUnavailableChild => if ign then Ok (c, idx) else Err ESplitError
+             | Err k => Err k
+             | Ok (c', i) => seq_split_loop rec ign false durf r c' (insert_sorted t abl) (idx ++ [i])
+             end
+      end).
+  Proof. reflexivity. Qed.
+
+  Lemma seq_single m cs t ign : (hmax cs <= n)%nat -> wfs cs -> 0 < t -> (ign = true \/ t <= dsum cs) ->
+    exists ps, seq_split rec m cs [t] ign = Ok ps /\ single_spec (Seq m cs) t ps.
+  Proof.
+    intros Hh Hwf Ht Hign. rewrite seq_split_unfold by congruence. rewrite sortZ_single, seq_loop_cons.
+    rewrite check_time_ok by lia. cbn [bind].
+    destruct (index_of t (starts cs)) as [i|] eqn:Eidx.
+    - rewrite seq_loop_nil. cbn [bind app]. eexists; split; [reflexivity|].
+      apply seq_two; auto. apply index_of_some; assumption.
+    - destruct (t =? dsum cs) eqn:Etd.
+      + rewrite seq_loop_nil. cbn [bind]. eexists; split; [reflexivity|]. apply seq_whole; auto; lia.
+      + destruct (split_child_core_spec cs t Hh Hwf ltac:(lia)) as [H1 H2].
+        destruct (t <? dsum cs) eqn:Elt.
+        * destruct (H2 ltac:(lia)) as (cs' & i & E & Hok). rewrite E, seq_loop_nil. cbn [bind app].
+          eexists; split; [reflexivity|].
+          destruct Hok as (G1 & G2 & G3 & G4 & G5 & _).
+          apply (single_spec_transfer (Seq m cs) (Seq m cs')).
+          -- apply seq_two; auto.
+          -- intros x. rewrite !at_seq_eq. apply G3.
+          -- rewrite !dur_seq. exact G2.
+          -- rewrite !height_seq. lia.
+          -- intros p. exact (fun H => H).
+        * rewrite (H1 ltac:(lia)). assert (ign = true) as -> by (destruct Hign; [assumption|lia]).
+          cbn [bind]. eexists; split; [reflexivity|]. apply seq_whole; auto; lia.
   Qed.
 End WithRec.
+
+(* ------------------------------------------------------------ Concurrence: rows *)
+Definition nonempty {A} (r : list A) : bool := match r with [] => false | _ => true end.
+Definition elem (o : option ev) : list ev := match o with Some p => if truthy p then [p] else [] | None => [] end.
+
+Lemma falsy_sem p : truthy p = false -> dur p = 0 /\ forall x, at_ p x = None.
+Proof. destruct p as [d l|m [|c cs]|m [|c cs]]; simpl; try discriminate; auto. Qed.
+
+Lemma elem_at o x : at_sim x (elem o) = match at_opt o x with Some s => [s] | None => [] end.
+Proof.
+  destruct o as [p|]; [|reflexivity]. unfold elem. destruct (truthy p) eqn:E.
+  - rewrite at_sim_cons, at_sim_nil. reflexivity.
+  - destruct (falsy_sem p E) as [_ H]. simpl. rewrite H. reflexivity.
+Qed.
+Lemma elem_dmax o : (forall p, o = Some p -> wf p) -> dmax (elem o) = dur_opt o.
+Proof.
+  destruct o as [p|]; [|reflexivity]. intros H. specialize (H p eq_refl). pose proof (dur_nonneg p H).
+  unfold elem. destruct (truthy p) eqn:E.
+  - rewrite dmax_cons. simpl. lia.
+  - destruct (falsy_sem p E) as [Hz _]. simpl. lia.
+Qed.
+Lemma elem_wfs o : (forall p, o = Some p -> wf p) -> wfs (elem o).
+Proof. destruct o as [p|]; [|exact (fun _ => I)]. intros H. unfold elem. destruct (truthy p); [exact (conj (H p eq_refl) I)|exact I]. Qed.
+Lemma elem_hmax o h : (forall p, o = Some p -> (height p <= h)%nat) -> (hmax (elem o) <= h)%nat.
+Proof. destruct o as [p|]; [|simpl; lia]. intros H. specialize (H p eq_refl). unfold elem. destruct (truthy p); simpl; lia. Qed.
+
+Lemma row_cons ps pss j : row (ps :: pss) j = elem (nth_error ps j) ++ row pss j.
+Proof.
+  unfold row. cbn [flat_map]. rewrite filter_app. f_equal.
+  destruct (nth_error ps j) as [p|]; [|reflexivity]. reflexivity.
+Qed.
+Lemma row_nil j : row [] j = []. Proof. reflexivity. Qed.
+Lemma max_len_cons ps pss : max_len (ps :: pss) = Nat.max (length ps) (max_len pss). Proof. reflexivity. Qed.
+
+Lemma row_beyond pss j : (max_len pss <= j)%nat -> row pss j = [].
+Proof.
+  induction pss as [|ps pss IH]; intros H; [reflexivity|]. rewrite max_len_cons in H. rewrite row_cons, IH by lia.
+  assert (nth_error ps j = None) as -> by (apply nth_error_None; lia). reflexivity.
+Qed.
+
+Lemma rows_eq pss N : (max_len pss <= N)%nat -> rows pss = filter nonempty (map (row pss) (seq 0 N)).
+Proof.
+  intros H. replace N with (max_len pss + (N - max_len pss))%nat by lia.
+  rewrite seq_app, map_app, filter_app. unfold rows at 1. fold (@nonempty ev).
+  match goal with |- ?a = ?a ++ ?b => assert (b = []) as -> end; [|rewrite app_nil_r; reflexivity].
+  generalize (N - max_len pss)%nat as k. simpl plus.
+  assert (G : forall k s, (max_len pss <= s)%nat -> filter nonempty (map (row pss) (seq s k)) = []).
+  { induction k as [|k IH]; intros s Hs; [reflexivity|]. simpl. rewrite row_beyond by lia. simpl. apply IH. lia. }
+  intros k. apply G. lia.
+Qed.
+
+Lemma mapM_spec {A B} (f : A -> res B) (P : A -> B -> Prop) l :
+  (forall a, In a l -> exists b, f a = Ok b /\ P a b) -> exists bs, mapM f l = Ok bs /\ Forall2 P l bs.
+Proof.
+  induction l as [|a l IH]; intros H; [exists []; split; [reflexivity|constructor]|].
+  destruct (H a (or_introl eq_refl)) as (b & Eb & Pb).
+  destruct (IH (fun a' Ha' => H a' (or_intror Ha'))) as (bs & Ebs & Pbs).
+  exists (b :: bs). simpl. rewrite Eb. simpl. rewrite Ebs. simpl. split; [reflexivity|constructor; assumption].
+Qed.
+
+(* the two rows of a single cut *)
+Lemma sim_rows_sem cs pss t : 0 < t -> Forall2 (fun c ps => single_spec c t ps) cs pss ->
+   (forall x, at_sim x (row pss 0) = if x <? t then at_sim x cs else []) /\
+   (forall x, at_sim x (row pss 1) = if 0 <=? x then at_sim (t + x) cs else []) /\
+   dmax (row pss 0) = Z.min t (dmax cs) /\ dmax (row pss 1) = Z.max 0 (dmax cs - t) /\
+   wfs (row pss 0) /\ wfs (row pss 1) /\ (hmax (row pss 0) <= hmax cs)%nat /\ (hmax (row pss 1) <= hmax cs)%nat /\
+   (max_len pss <= 2)%nat /\ (dmax cs < t -> row pss 1 = []).
+Proof.
+  intros Ht H. induction H as [|c ps cs pss Hs HF IH].
+  - rewrite !row_nil. simpl. repeat split; try lia; auto.
+    + intros x. destruct (x <? t); reflexivity.
+    + intros x. destruct (0 <=? x); reflexivity.
+  - destruct IH as (I1 & I2 & I3 & I4 & I5 & I6 & I7 & I8 & I9 & I10).
+    destruct Hs as (H1 & H2 & H3 & H4 & H5 & H6 & H7 & H8 & H9 & H10).
+    assert (Hw : forall j p, nth_error ps j = Some p -> wf p) by (intros j p E; exact (wfs_nth ps j p H2 E)).
+    assert (Hh : forall j p, nth_error ps j = Some p -> (height p <= Nat.max (height c) (hmax cs))%nat).
+    { intros j p E. apply hmax_nth in E. lia. }
+    pose proof (dmax_nonneg cs) as Hnn.
+    rewrite !row_cons, max_len_cons, !dmax_app, !hmax_app, !dmax_cons, !hmax_cons.
+    rewrite !elem_dmax by (apply Hw).
+    split; [|split; [|split; [|split; [|split; [|split; [|split; [|split; [|split]]]]]]]].
+    + intros x. rewrite at_sim_app, elem_at, H5, I1, at_sim_cons. destruct (x <? t); [|reflexivity].
+      destruct (at_ c x); reflexivity.
+    + intros x. rewrite at_sim_app, elem_at, H6, I2, at_sim_cons. destruct (0 <=? x); [|reflexivity].
+      destruct (at_ c (t + x)); reflexivity.
+    + lia.
+    + lia.
+    + apply wfs_app. split; [apply elem_wfs, Hw|assumption].
+    + apply wfs_app. split; [apply elem_wfs, Hw|assumption].
+    + pose proof (elem_hmax (nth_error ps 0) _ (Hh 0%nat)). lia.
+    + pose proof (elem_hmax (nth_error ps 1) _ (Hh 1%nat)). lia.
+    + lia.
+    + intros Hlt. rewrite I10 by lia. specialize (H10 ltac:(lia)).
+      assert (nth_error ps 1 = None) as -> by (apply nth_error_None; lia). reflexivity.
+Qed.
+
+(* two candidate parts, each possibly dropped because it is empty *)
+Lemma assemble2 e t P0 P1 (b0 b1 : bool) : wf e -> 0 < t ->
+  wf P0 -> wf P1 -> (height P0 <= height e)%nat -> (height P1 <= height e)%nat ->
+  same_shape e P0 -> same_shape e P1 ->
+  (forall x, at_ P0 x = if x <? t then at_ e x else None) ->
+  (forall x, at_ P1 x = if 0 <=? x then at_ e (t + x) else None) ->
+  dur P0 = Z.min t (dur e) -> dur P1 = Z.max 0 (dur e - t) ->
+  (b0 = false -> dur P0 = 0 /\ forall x, at_ P0 x = None) ->
+  (b1 = false -> dur P1 = 0 /\ forall x, at_ P1 x = None) ->
+  (dur e < t -> b1 = false) ->
+  single_spec e t ((if b0 then [P0] else []) ++ (if b1 then [P1] else [])).
+Proof.
+  intros We Ht W0 W1 Hh0 Hh1 S0 S1 A0 A1 D0 D1 F0 F1 B1. pose proof (dur_nonneg e We) as Hnn.
+  unfold single_spec. destruct b0, b1; cbn [app length nth_error at_opt dur_opt].
+  - split; [lia|]. split; [exact (conj W0 (conj W1 I))|]. split; [simpl; lia|]. split; [repeat constructor; assumption|].
+    repeat split; auto. intros Hlt. specialize (B1 Hlt). discriminate.
+  - destruct (F1 eq_refl) as [Z1 N1].
+    split; [lia|]. split; [exact (conj W0 I)|]. split; [simpl; lia|]. split; [repeat constructor; assumption|].
+    split; [assumption|]. split; [intros x; rewrite <- A1; symmetry; apply N1|].
+    split; [assumption|]. split; [lia|]. split; intros; lia.
+  - destruct (F0 eq_refl) as [Z0 N0].
+    assert (Hd : dur e = 0) by lia.
+    assert (N1 : forall x, at_ P1 x = None).
+    { intros x. rewrite A1. destruct (0 <=? x) eqn:E; [|reflexivity]. apply at_outside; [assumption|lia]. }
+    split; [lia|]. split; [exact (conj W1 I)|]. split; [simpl; lia|]. split; [repeat constructor; assumption|].
+    split; [intros x; rewrite N1, <- A0; symmetry; apply N0|].
+    split; [intros x; rewrite <- A1; symmetry; apply N1|].
+    split; [lia|]. split; [lia|]. split; intros; lia.
+  - destruct (F0 eq_refl) as [Z0 N0]. destruct (F1 eq_refl) as [Z1 N1].
+    split; [lia|]. split; [exact I|]. split; [simpl; lia|]. split; [constructor|].
+    split; [intros x; rewrite <- A0; symmetry; apply N0|].
+    split; [intros x; rewrite <- A1; symmetry; apply N1|].
+    split; [lia|]. split; [lia|]. split; intros; lia.
+Qed.
+
+Lemma sim_parts_two m (R0 R1 : list ev) : map (fun r => Sim m r) (filter nonempty [R0; R1]) =
+  (if nonempty R0 then [Sim m R0] else []) ++ (if nonempty R1 then [Sim m R1] else []).
+Proof. destruct R0, R1; reflexivity. Qed.
+
+Lemma sim_empty_sem m (R : list ev) : nonempty R = false -> dur (Sim m R) = 0 /\ forall x, at_ (Sim m R) x = None.
+Proof. destruct R; [|discriminate]. intros _. split; reflexivity. Qed.
+
+Section WithRec2.
+  Variable rec : ev -> list Z -> bool -> res (list ev).
+  Variable n : nat.
+  Hypothesis Hrec : rec_ok n rec.
+
+  Lemma sim_single m cs t ign : (hmax cs <= n)%nat -> wfs cs -> 0 < t -> (ign = true \/ t <= dmax cs) ->
+    exists ps, sim_split rec m cs [t] ign = Ok ps /\ single_spec (Sim m cs) t ps.
+  Proof.
+    intros Hh Hwf Ht Hign. unfold sim_split. rewrite sortZ_single. cbv zeta. cbn [hd].
+    rewrite check_time_ok by lia. cbn [bind]. change (lastZ [t]) with t.
+    assert ((dmax cs <? t) && negb ign = false) as -> by (destruct Hign as [->|?]; [apply andb_false_r|lia]).
+    unfold slices_of.
+    destruct (mapM_spec (fun c => rec c [t] true) (fun c ps => single_spec c t ps) cs) as (pss & E & HF).
+    { intros c Hc. apply Hrec; auto.
+      - pose proof (hmax_In cs c Hc). lia.
+      - eapply wfs_In; eauto. }
+    rewrite E. cbn [bind]. eexists; split; [reflexivity|].
+    destruct (sim_rows_sem cs pss t Ht HF) as (R1 & R2 & R3 & R4 & R5 & R6 & R7 & R8 & R9 & R10).
+    rewrite (rows_eq pss 2) by assumption. cbn [seq map]. rewrite sim_parts_two.
+    apply assemble2; auto.
+    - rewrite !height_sim. lia.
+    - rewrite !height_sim. lia.
+    - reflexivity.
+    - reflexivity.
+    - intros x. rewrite !at_sim_eq, R1. destruct (x <? t); reflexivity.
+    - intros x. rewrite !at_sim_eq, R2. destruct (0 <=? x); reflexivity.
+    - apply sim_empty_sem.
+    - apply sim_empty_sem.
+    - rewrite dur_sim. intros Hlt. rewrite R10 by assumption. reflexivity.
+  Qed.
+End WithRec2.
+
+(* ------------------------------------------------------------ the general single-cut theorem *)
+Theorem split_single_gen : forall n, rec_ok n (split_at_f n).
+Proof.
+  induction n as [|n IH]; intros e t ign Hh Hw Ht Hign.
+  - pose proof (height_pos e). lia.
+  - destruct e as [d l|m cs|m cs]; cbn [split_at_f].
+    + apply leaf_single; auto.
+    + rewrite height_seq in Hh. apply (seq_single _ n IH); auto. lia.
+    + rewrite height_sim in Hh. apply (sim_single _ n IH); auto. lia.
+Qed.
+
+(* a single cut at t > 0 tiles the event, whatever the position of t *)
+Lemma single_spec_tiles e t ps : wf e -> 0 < t -> single_spec e t ps ->
+  dsum ps = dur e /\ forall x, at_seq ps x = at_ e x.
+Proof.
+  intros We Ht (H1 & H2 & H3 & H4 & H5 & H6 & H7 & H8 & H9 & H10). pose proof (dur_nonneg e We) as Hnn.
+  destruct ps as [|p0 [|p1 [|? ?]]]; cbn [length nth_error at_opt dur_opt] in *; try lia.
+  - split; [simpl; lia|]. intros x. rewrite at_seq_nil. symmetry. apply at_outside; [assumption|lia].
+  - destruct H2 as [W0 _]. split; [simpl; lia|]. intros x. rewrite at_seq_single, H5 by assumption.
+    destruct (x <? t) eqn:E; [reflexivity|]. symmetry. apply at_outside; [assumption|lia].
+  - destruct H2 as (W0 & W1 & _). split; [simpl; lia|]. intros x.
+    rewrite at_seq_cons, at_seq_single, H5, H6, H7 by assumption.
+    destruct ((0 <=? x) && (x <? Z.min t (dur e))) eqn:E1.
+    + destruct (x <? t) eqn:E2; [reflexivity|lia].
+    + destruct (0 <=? x - Z.min t (dur e)) eqn:E2.
+      * destruct (t <=? dur e) eqn:E3.
+        -- f_equal. lia.
+        -- rewrite !at_outside; auto; lia.
+      * symmetry. apply at_outside; [assumption|lia].
+Qed.
+
+(* ============================================================ Stage A: statements *)
+
+(* A1 *)
+Theorem split_single_inside n e t ign : (height e <= n)%nat -> wf e -> 0 < t < dur e ->
+  exists p0 p1, split_at_f n e [t] ign = Ok [p0; p1] /\
+    dur p0 = t /\ dur p1 = dur e - t /\ wf p0 /\ wf p1 /\
+    (forall x, at_ p0 x = if x <? t then at_ e x else None) /\
+    (forall x, at_ p1 x = if 0 <=? x then at_ e (t + x) else None) /\
+    same_shape e p0 /\ same_shape e p1 /\ (height p0 <= height e)%nat /\ (height p1 <= height e)%nat.
+Proof.
+  intros Hh Hw Ht. destruct (split_single_gen n e t ign Hh Hw ltac:(lia) ltac:(right; lia)) as (ps & E & Hs).
+  destruct (single_spec_inside _ _ _ Hs Ht) as (p0 & p1 & -> & Hi). exists p0, p1. split; [exact E|exact Hi].
+Qed.
+
+(* A2: a cut at or beyond the end, as requested from the children of a Concurrence (ign = true);
+   also holds with ign = false when t = dur e.  The parts still denote e when played in sequence.
+   NOTE: `length ps <= 1` only holds for dur e < t: for t = dur e a Consecution that ends with
+   zero-length children is cut into two parts, e.g. Seq [Leaf 10; Leaf 0] at 10. *)
+Theorem split_single_beyond n e t ign : (height e <= n)%nat -> wf e -> 0 < t -> dur e <= t ->
+  (ign = true \/ t = dur e) ->
+  exists ps, split_at_f n e [t] ign = Ok ps /\ dsum ps = dur e /\ (forall x, at_seq ps x = at_ e x) /\
+    wfs ps /\ (hmax ps <= height e)%nat /\ Forall (same_shape e) ps /\ (length ps <= 2)%nat /\
+    (dur e < t -> (length ps <= 1)%nat) /\
+    (forall p, nth_error ps 0 = Some p -> dur p = dur e /\ forall x, at_ p x = at_ e x) /\
+    (forall p, nth_error ps 1 = Some p -> dur p = 0 /\ forall x, at_ p x = None).
+Proof.
+  intros Hh Hw Ht Hd Hign.
+  destruct (split_single_gen n e t ign Hh Hw Ht ltac:(destruct Hign; [left; assumption|right; lia])) as (ps & E & Hs).
+  exists ps. split; [exact E|]. destruct (single_spec_tiles e t ps Hw Ht Hs) as [T1 T2].
+  destruct Hs as (H1 & H2 & H3 & H4 & H5 & H6 & H7 & H8 & H9 & H10).
+  split; [exact T1|]. split; [exact T2|]. split; [exact H2|]. split; [exact H3|]. split; [exact H4|].
+  split; [exact H1|]. split; [exact H10|]. split.
+  - intros p Hp. rewrite Hp in H5, H7. simpl in H5, H7. split; [lia|].
+    intros x. rewrite H5.
+    destruct (x <? t) eqn:Ex; [reflexivity|]. symmetry. apply at_outside; [assumption|lia].
+  - intros p Hp. rewrite Hp in H6, H8. simpl in H6, H8. split; [lia|].
+    intros x. rewrite H6.
+    destruct (0 <=? x) eqn:Ex; [|reflexivity]. apply at_outside; [assumption|lia].
+Qed.
+
+(* the uniform statement behind A1/A2 (this is what makes the Concurrence case go through) *)
+Theorem split_single_general n e t ign : (height e <= n)%nat -> wf e -> 0 < t -> (ign = true \/ t <= dur e) ->
+  exists ps, split_at_f n e [t] ign = Ok ps /\ single_spec e t ps /\
+             dsum ps = dur e /\ forall x, at_seq ps x = at_ e x.
+Proof.
+  intros Hh Hw Ht Hign. destruct (split_single_gen n e t ign Hh Hw Ht Hign) as (ps & E & Hs).
+  exists ps. split; [exact E|]. split; [exact Hs|]. apply (single_spec_tiles e t ps Hw Ht Hs).
+Qed.
+
+(* A4 *)
+Theorem split_child_core_ok n cs t : (hmax cs <= n)%nat -> wfs cs -> 0 <= t ->
+  (dsum cs <= t -> split_child_core (split_at_f n) cs t (starts cs) (dsum cs) = Err ESplitUnavailableChild) /\
+  (t < dsum cs -> exists cs' i, split_child_core (split_at_f n) cs t (starts cs) (dsum cs) = Ok (cs', i) /\
+      wfs cs' /\ dsum cs' = dsum cs /\ (forall x, at_seq cs' x = at_seq cs x) /\ (hmax cs' <= hmax cs)%nat /\
+      nth_error (starts cs') i = Some t /\ dsum (firstn i cs') = t /\ (i < length cs')%nat /\
+      (forall k, dsum (firstn k cs) < t -> firstn k cs' = firstn k cs) /\
+      (forall x, at_seq (firstn i cs') x = if x <? t then at_seq cs x else None) /\
+      (forall x, at_seq (skipn i cs') x = if 0 <=? x then at_seq cs (t + x) else None)).
+Proof. intros. apply (split_child_core_spec (split_at_f n) n (split_single_gen n)); assumption. Qed.
+
+Theorem split_child_core_iff n cs t : (hmax cs <= n)%nat -> wfs cs -> 0 <= t ->
+  (split_child_core (split_at_f n) cs t (starts cs) (dsum cs) = Err ESplitUnavailableChild <-> dsum cs <= t).
+Proof.
+  intros Hh Hw Ht. destruct (split_child_core_ok n cs t Hh Hw Ht) as [H1 H2]. split; [|exact H1].
+  intros E. destruct (Z_lt_le_dec t (dsum cs)) as [Hlt|Hle]; [|exact Hle].
+  destruct (H2 Hlt) as (cs' & i & E' & _). congruence.
+Qed.
+
+(* ------------------------------------------------------------ fuel independence for a single cut *)
+Lemma split_child_core_ext rec1 rec2 c t abl durf :
+  (forall ch t', In ch c -> rec1 ch [t'] false = rec2 ch [t'] false) ->
+  split_child_core rec1 c t abl durf = split_child_core rec2 c t abl durf.
+Proof.
+  intros H. unfold split_child_core. destruct (check_time t); [|reflexivity]. cbn [bind].
+  destruct (index_at_from t abl durf) as [i|]; [|reflexivity].
+  destruct (t =? nth i abl 0); [reflexivity|]. destruct (nth_error c i) as [ch|] eqn:E; [|reflexivity].
+  rewrite (H ch _ (nth_error_In _ _ E)). reflexivity.
+Qed.
+Lemma mapM_ext {A B} (f g : A -> res B) l : (forall a, In a l -> f a = g a) -> mapM f l = mapM g l.
+Proof.
+  induction l as [|a l IH]; intros H; [reflexivity|]. simpl. rewrite (H a (or_introl eq_refl)).
+  rewrite IH; [reflexivity|]. intros a' Ha'. apply H. right. exact Ha'.
+Qed.
+
+Theorem split_single_fuel : forall n1 n2 e t ign, (height e <= n1)%nat -> (height e <= n2)%nat ->
+  split_at_f n1 e [t] ign = split_at_f n2 e [t] ign.
+Proof.
+  induction n1 as [|n1 IH]; intros n2 e t ign H1 H2; [pose proof (height_pos e); lia|].
+  destruct n2 as [|n2]; [pose proof (height_pos e); lia|].
+  destruct e as [d l|m cs|m cs]; cbn [split_at_f]; [reflexivity| |].
+  - rewrite height_seq in *.
+    assert (Hext : forall ch t', In ch cs -> split_at_f n1 ch [t'] false = split_at_f n2 ch [t'] false).
+    { intros ch t' Hin. pose proof (hmax_In cs ch Hin). apply IH; lia. }
+    rewrite !seq_split_unfold by congruence. rewrite sortZ_single, !seq_loop_cons.
+    destruct (check_time t); [|reflexivity]. cbn [bind].
+    destruct (index_of t (starts cs)); [reflexivity|]. destruct (t =? dsum cs); [reflexivity|].
+    rewrite (split_child_core_ext _ _ cs t _ _ Hext). reflexivity.
+  - rewrite height_sim in *. unfold sim_split. rewrite sortZ_single. cbv zeta.
+    destruct (check_time (hd 0 [t])); [|reflexivity]. cbn [bind].
+    destruct ((dmax cs <? lastZ [t]) && negb ign); [reflexivity|].
+    unfold slices_of. rewrite (mapM_ext _ (fun c => split_at_f n2 c [t] true)); [reflexivity|].
+    intros c Hin. pose proof (hmax_In cs c Hin). apply IH; lia.
+Qed.
+
+(* A3: the public function *)
+Theorem split_at_single e t ign : wf e -> 0 < t < dur e ->
+  exists p0 p1, split_at e [t] ign = Ok [p0; p1] /\
+    dur p0 = t /\ dur p1 = dur e - t /\ wf p0 /\ wf p1 /\
+    (forall x, at_ p0 x = if x <? t then at_ e x else None) /\
+    (forall x, at_ p1 x = if 0 <=? x then at_ e (t + x) else None) /\
+    same_shape e p0 /\ same_shape e p1 /\ (height p0 <= height e)%nat /\ (height p1 <= height e)%nat.
+Proof. intros. apply split_single_inside; auto. Qed.
+
+Theorem split_at_f_single_fuel n e t ign : (height e <= n)%nat -> split_at_f n e [t] ign = split_at e [t] ign.
+Proof. intros. unfold split_at. apply split_single_fuel; auto. Qed.
+
+(* ------------------------------------------------------------ examples *)
+Definition ex_tree : ev :=
+  Seq meta0 [Seq meta0 [Leaf 10 1; Leaf 20 2]; Sim meta0 [Leaf 15 3; Seq meta0 [Leaf 5 4; Leaf 10 5]]; Leaf 10 6].
+
+Example ex_wf : wfb ex_tree = true /\ dur ex_tree = 55. Proof. vm_compute. auto. Qed.
+Example ex_split_10 : split_at ex_tree [10] false =
+  Ok [Seq meta0 [Seq meta0 [Leaf 10 1]];
+      Seq meta0 [Seq meta0 [Leaf 20 2]; Sim meta0 [Leaf 15 3; Seq meta0 [Leaf 5 4; Leaf 10 5]]; Leaf 10 6]].
+Proof. vm_compute. reflexivity. Qed.
+Example ex_split_35 : split_at ex_tree [35] false =
+  Ok [Seq meta0 [Seq meta0 [Leaf 10 1; Leaf 20 2]; Sim meta0 [Leaf 5 3; Seq meta0 [Leaf 5 4]]];
+      Seq meta0 [Sim meta0 [Leaf 10 3; Seq meta0 [Leaf 10 5]]; Leaf 10 6]].
+Proof. vm_compute. reflexivity. Qed.
+(* a voice that ends exactly at the cut with a zero-length child yields a second, zero-length part *)
+Example ex_split_trailing_zero : split_at (Sim meta0 [Seq meta0 [Leaf 10 1; Leaf 0 2]; Leaf 5 3]) [10] true =
+  Ok [Sim meta0 [Seq meta0 [Leaf 10 1]; Leaf 5 3]; Sim meta0 [Seq meta0 [Leaf 0 2]]].
+Proof. vm_compute. reflexivity. Qed.
+
+Print Assumptions split_single_inside.
+Print Assumptions split_single_beyond.
+Print Assumptions split_single_general.
+Print Assumptions split_child_core_ok.
+Print Assumptions split_child_core_iff.
+Print Assumptions split_at_single.
+Print Assumptions split_single_fuel.
